@@ -103,3 +103,5 @@ CHECKS["C04"] = {
     "assumptions": ["the waiter is emulated by polling the finished queue at every read call"],
     "runs": [C04_FAULT_RUN, C04_SCHED_RUN],
 }
+
+C20_BUS_RUN = bus("C20", ["--validate-every", 0], ["--validate-every", 0], variant="san")
